@@ -10,7 +10,17 @@ CLAIMED['C07'] = (
     'Static non-interference rules decided for every call history: (source) nondeterminism sources (OS/thread rng, SystemTime, RandomState, hash iteration, pointer-to-int) are called on planning paths only in the unseeded fallback of the rng field; (flow) every rng consumer reachable from the planner API draws from the planner generator or forwards its caller\'s, RngCore wrappers forward faithfully; (restore) a generator taken from the rng field is stored back on every normal exit; (clock) Instant values reach only the deadline comparison; (seed) PlannerConfig.seed reaches seed_from_u64 unmodified and lands in the rng field. Does not compare two executions.',
     'Trusted: rustc MIR, mirfacts, determinism of StdRng::seed_from_u64 and rand adaptors, deterministic user callbacks.',
     'DESIGN.md section 4, C07')
-NOT_BUILT = ['C01', 'C02', 'C03', 'C05', 'C06', 'C08', 'C11', 'C12', 'C13', 'C15', 'C16', 'C17', 'C18', 'C19']
+CLAIMED['C11'] = (
+    'effect/purity summaries + origin terms over MIR (dropped pure results, bounds-field agreement, range guards)',
+    'Static structural agreement of the three bounds operations of each primitive space: no pure call on the state has its result dropped inside a space operation (lost update); sample/enforce/check read self.bounds index-aligned with lower as lower and upper as upper (clamp, range and comparison sites); the SO(3) sampler returns only states that passed the bounds predicate; every random_range is non-empty by a dominating lo<hi guard or by the constructor invariant of C12; enforce_bounds tests the state it leaves behind. Numerical idempotence / tolerance arithmetic is not decided.',
+    'Trusted: rustc MIR, mirfacts, documented behaviour of f64::clamp/min/max; bounds fields written only by constructors; relies on C12.stored/nan for ranges drawn from bounds fields.',
+    'DESIGN.md section 4, C11')
+CLAIMED['C12'] = (
+    'check-then-store origin matching + abstract order domain {<,=,>,unordered} over MIR',
+    'For every fallible space constructor the value stored in the bounds field is traced to its origin and must be the very operands of an ordering test that dominates the Ok return (per reaching definition / per loop element); the accept relation is tabulated over {lt,eq,gt,unordered} so NaN-accepting guards and check-then-transform are reported; radius non-negativity is evaluated through f64::min/max; length gates dominate every use of the provided vector and fail with DimensionMismatch; component constructor errors are ?-propagated; SE2State::new delegates to SO2State::new. Wrapping / normalisation arithmetic is not decided.',
+    'Trusted: rustc MIR, mirfacts, IEEE semantics of comparisons and f64::min/max with NaN.',
+    'DESIGN.md section 4, C12')
+NOT_BUILT = ['C01', 'C02', 'C03', 'C05', 'C06', 'C08', 'C13', 'C15', 'C16', 'C17', 'C18', 'C19']
 for p in NOT_BUILT:
     if p not in CLAIMED:
         NOT_APPLICABLE[p] = 'not built yet (static rule designed in DESIGN.md section 4; moved to claimed when its check exists)'
